@@ -45,6 +45,9 @@ func storm(id string, seed uint64) runner.Result {
 		if n > 20000 {
 			n = 20000
 		}
+		if sp := cfg.Client.Stream.SplitSize; sp <= 0 && rr.Intn(8) == 0 {
+			n = 66000 + rr.Intn(140000) // a single frame (no splitting) or several maximal frames
+		}
 		if sp := cfg.Client.Stream.SplitSize; sp > 0 && sp < 8 && n > 600 {
 			n = rr.Intn(600)
 		}
@@ -281,9 +284,16 @@ func parkedTerminal(id string, seed uint64) runner.Result {
 	r := &payload.SplitMix{S: seed}
 	cfg := prog.GenConfig(r, false)
 	cfg.Net.Cap = -1
-	term := payload.Pick(r, []string{"close", "closesend", "senderror"})
+	term := payload.Pick(r, []string{"close", "closesend", "senderror", "send"})
 	point := "stream." + term + "." + payload.Pick(r, []string{"mu", "write", "emit"})
+	nth := 1
+	if term == "send" {
+		// a second sender queues on the write lock behind the parked one and is itself held right
+		// after it got the lock (a slow Marshal), while the stream ends and the next RPCs begin
+		point, nth = "stream.msgsend.locked", 2
+	}
 	handlerErr := r.Intn(2) == 0
+	bsize := 50 + r.Intn(500)
 	handler := rig.HandlerFunc(func(stream drpc.Stream, rpc string) error {
 		var m []byte
 		stream.MsgRecv(&m, payload.Enc{})
@@ -298,7 +308,7 @@ func parkedTerminal(id string, seed uint64) runner.Result {
 	})
 	rg := rig.New(rig.Config{Net: cfg.Net, Client: cfg.Client, Server: cfg.Server}, handler)
 	defer rg.Teardown()
-	park := rg.Dir.ParkAt(point, rg.Pair.A, 1)
+	park := rg.Dir.ParkAt(point, rg.Pair.A, nth)
 	ctx, cancel := context.WithCancel(context.Background())
 	defer cancel()
 	st, err := rg.Conn.NewStream(ctx, "/first", payload.Enc{})
@@ -320,6 +330,9 @@ func parkedTerminal(id string, seed uint64) runner.Result {
 			return nil, st.Close()
 		case "closesend":
 			return nil, st.CloseSend()
+		case "send":
+			m := payload.Make(1, 0, 1, 0, bsize)
+			return nil, st.MsgSend(&m, payload.Enc{})
 		default:
 			return nil, st.(interface{ SendError(error) error }).SendError(errors.New("client gives up"))
 		}
